@@ -72,9 +72,7 @@ impl TextDocument {
         change: &TextDocumentContentChangeEvent,
     ) -> Result<(), DocumentError> {
         if let Some(range) = change.range {
-            self.validate_range(range)?;
-            let start_index = self.position_to_index(range.start);
-            let end_index = self.position_to_index(range.end);
+            let (start_index, end_index) = self.validate_range(range)?;
             self.content
                 .replace_range(start_index..end_index, &change.text);
         } else {
@@ -85,22 +83,56 @@ impl TextDocument {
         Ok(())
     }
 
-    fn validate_range(&self, range: Range) -> Result<(), DocumentError> {
-        let start = self.position_to_index(range.start);
-        let end = self.position_to_index(range.end);
-        if start > end || end > self.content.len() {
-            return Err(DocumentError::InvalidRange { range });
+    /// Returns the byte indices into `content` denoted by `range`, or an error,
+    /// leaving the document untouched, if the range does not denote a region of the document.
+    fn validate_range(&self, range: Range) -> Result<(usize, usize), DocumentError> {
+        match (
+            self.position_to_index(range.start),
+            self.position_to_index(range.end),
+        ) {
+            (Some(start), Some(end)) if start <= end => Ok((start, end)),
+            _ => Err(DocumentError::InvalidRange { range }),
         }
-        Ok(())
     }
 
-    fn position_to_index(&self, position: Position) -> usize {
-        let line_offset = self
+    /// Converts an LSP position into a byte index into `content`.
+    ///
+    /// `position.character` counts UTF-16 code units, the protocol's default position encoding,
+    /// whereas `content` is UTF-8. As required by the LSP specification, a character beyond the
+    /// end of the line is clamped to the line length (the line terminator is not part of the line).
+    ///
+    /// Returns `None` if the position does not denote a location in the document: a line past
+    /// the end of the document (except character 0, the end of the document), or a character
+    /// offset that falls inside a surrogate pair.
+    fn position_to_index(&self, position: Position) -> Option<usize> {
+        let line = position.line as usize;
+        let Some(&line_start) = self.line_offsets.get(line) else {
+            return (position.character == 0).then_some(self.content.len());
+        };
+        let line_end = self
             .line_offsets
-            .get(position.line as usize)
+            .get(line + 1)
             .copied()
             .unwrap_or(self.content.len());
-        line_offset + position.character as usize
+        let line_text = &self.content[line_start..line_end];
+        let line_text = line_text
+            .strip_suffix('\n')
+            .map(|text| text.strip_suffix('\r').unwrap_or(text))
+            .unwrap_or(line_text);
+
+        let character = position.character as usize;
+        let mut utf16_units = 0;
+        for (byte_index, c) in line_text.char_indices() {
+            if utf16_units == character {
+                return Some(line_start + byte_index);
+            }
+            utf16_units += c.len_utf16();
+            if utf16_units > character {
+                // In the middle of a surrogate pair.
+                return None;
+            }
+        }
+        Some(line_start + line_text.len())
     }
 
     fn calculate_line_offsets(text: &str) -> Vec<usize> {
@@ -152,6 +184,15 @@ impl Documents {
                 })?;
 
         file.write_all(src.as_bytes())
+            .await
+            .map_err(|err| DocumentError::UnableToWriteFile {
+                path: uri.path().to_string(),
+                err: err.to_string(),
+            })?;
+
+        // `write_all` only hands the data over to a background task. Wait for it to reach the
+        // file, otherwise the compilation triggered next may read a truncated file.
+        file.flush()
             .await
             .map_err(|err| DocumentError::UnableToWriteFile {
                 path: uri.path().to_string(),
@@ -372,6 +413,61 @@ mod tests {
             content,
             line_offsets,
         };
-        assert_eq!(document.position_to_index(Position::new(1, 2)), 8);
+        assert_eq!(document.position_to_index(Position::new(1, 2)), Some(8));
+    }
+
+    #[test]
+    fn positions_are_utf16_code_units() {
+        // 'é' is 2 bytes / 1 UTF-16 unit, '€' 3 bytes / 1 unit, '𝄞' 4 bytes / 2 units.
+        let content = "aé€𝄞b\r\né𝄞\nlast".to_string();
+        let line_offsets = TextDocument::calculate_line_offsets(&content);
+        let mut document = TextDocument {
+            version: 1,
+            uri: "test.sw".into(),
+            content,
+            line_offsets,
+        };
+        assert_eq!(document.position_to_index(Position::new(0, 3)), Some(6));
+        assert_eq!(document.position_to_index(Position::new(0, 5)), Some(10));
+        // Inside the surrogate pair of '𝄞'.
+        assert_eq!(document.position_to_index(Position::new(0, 4)), None);
+        // Beyond the end of a line: clamped to the line length, never into the next line.
+        assert_eq!(document.position_to_index(Position::new(0, 100)), Some(11));
+        assert_eq!(document.position_to_index(Position::new(1, 100)), Some(19));
+        assert_eq!(document.position_to_index(Position::new(2, 100)), Some(24));
+        // Beyond the last line.
+        assert_eq!(document.position_to_index(Position::new(3, 0)), Some(24));
+        assert_eq!(document.position_to_index(Position::new(3, 1)), None);
+
+        let change = |range, text: &str| TextDocumentContentChangeEvent {
+            range: Some(range),
+            range_length: None,
+            text: text.into(),
+        };
+        // Replace "€𝄞" on the first line and "𝄞" on the second one.
+        document
+            .apply_change(&change(
+                Range::new(Position::new(0, 2), Position::new(0, 5)),
+                "x",
+            ))
+            .unwrap();
+        assert_eq!(document.get_text(), "aéxb\r\né𝄞\nlast");
+        document
+            .apply_change(&change(
+                Range::new(Position::new(1, 1), Position::new(1, 3)),
+                "",
+            ))
+            .unwrap();
+        assert_eq!(document.get_text(), "aéxb\r\né\nlast");
+
+        // Invalid ranges are rejected and leave the document unchanged.
+        for range in [
+            Range::new(Position::new(1, 1), Position::new(0, 1)),
+            Range::new(Position::new(0, 0), Position::new(7, 3)),
+        ] {
+            let result = document.apply_change(&change(range, "y"));
+            assert_eq!(result, Err(DocumentError::InvalidRange { range }));
+            assert_eq!(document.get_text(), "aéxb\r\né\nlast");
+        }
     }
 }
